@@ -263,7 +263,7 @@ unit({
 def ARR(name, elem, n):
     return 'typedef struct %s { %s e[%d]; } %s;' % (name, elem, n, name)
 TAG_T = 'typedef struct Tag { char text[4]; } Tag;'
-IH = 'src/Bitmap/ImageHeader.cpp'; BH = 'src/Bitmap/BmpHeader.cpp'; BF = 'src/Bitmap/BitmapFile.cpp'
+IH = 'src/Bitmap/ImageHeader.cpp'; BH = 'src/Bitmap/BmpHeader.cpp'; BF = 'src/Bitmap/BitmapFile.cpp'; BR_ = 'src/Bitmap/IndexedBmpReader.cpp'
 BMP_TM = {'ImageHeader': 'ImageHeader', 'ImageHeaderV4': 'ImageHeaderV4', 'ImageHeaderV5': 'ImageHeaderV5', 'BmpHeader': 'BmpHeader', 'BmpCompression': 'BmpCompression', 'Color': 'Color',
           'std::array<char,2>': 'arr_char_2', 'std::array<uint16_t,6>': 'arr_u16_6', 'std::vector<Color>': 'vec_Color', 'std::vector<uint8_t>': 'vec_u8',
           'BitmapFile': 'BitmapFile', 'ScanLineOrientation': 'ScanLineOrientation', 'std::string': 'str'}
@@ -305,10 +305,10 @@ BMP_CALLS = {
 }
 unit({
     'name': 'bmph',
-    'includes': ['wr.h'],
+    'includes': ['kr.h', 'wr.h'],
     'ctor_calls': {'vec_u8': {'fn': 'vec_u8_ctor_fill', 'throws': True}},
     'default_ctors': {'BitmapFile': 'BitmapFile_ctor0'},
-    'typemap': dict(BMP_TM, **{'Stream::Writer': 'Wr'}),
+    'typemap': dict(BMP_TM, **{'Stream::Writer': 'Wr', 'Stream::BidirectionalReader': 'Rd'}),
     'enums': [('src/Bitmap/BmpCompression.h', 'BmpCompression'), ('src/Bitmap/BitmapFile.h', 'ScanLineOrientation')],
     'structs': [STR_VIEW] + BMP_STRUCTS,
     'globals': BMP_GLOBALS,
@@ -333,6 +333,18 @@ unit({
                    'CalcMaxIndexedPaletteSize': {0: T('ImageHeader_CalcMaxIndexedPaletteSize0')}, 'CalculatePitch': {0: N('ImageHeader_CalculatePitch0')}},
             views=[(r'bitmapFile\.palette', 'vec'), (r'bitmapFile\.pixels', 'vec')]),
         {'file': 'src/Bitmap/Color.cpp', 'qual': 'Color::SwapRedAndBlue', 'cls': 'Color', 'cname': 'Color_SwapRedAndBlue'},
+        {'file': BR_, 'qual': 'BitmapFile::ReadBmpHeader', 'cls': 'BitmapFile', 'static': True, 'cname': 'BitmapFile_ReadBmpHeader', 'members': {}, 'ret_cxx': 'BmpHeader',
+         'calls': {'Read': {1: T('Rd_Read', args=['obj'])}, 'Length': N('Rd_Length')}},
+        {'file': BR_, 'qual': 'BitmapFile::ReadImageHeader', 'cls': 'BitmapFile', 'static': True, 'cname': 'BitmapFile_ReadImageHeader', 'members': {}, 'ret_cxx': 'ImageHeader',
+         'calls': {'Read': {1: T('Rd_Read', args=['obj'])}, 'VerifyIndexedImageForSerialization': T('BitmapFile_VerifyIndexedImageForSerialization', recv='none')}},
+        {'file': BR_, 'qual': 'BitmapFile::ReadPalette', 'cls': 'BitmapFile', 'static': True, 'cname': 'BitmapFile_ReadPalette', 'members': {},
+         'calls': {'Read': {1: T('Rd_Read', args=['vec'])}, 'clear': N('vec_Color_clear'), 'resize': T('vec_Color_resize'), 'CalcMaxIndexedPaletteSize': {0: T('ImageHeader_CalcMaxIndexedPaletteSize0')}},
+         'views': [(r'\(\*bitmapFile\)\.palette', 'vec')]},
+        {'file': BR_, 'qual': 'BitmapFile::ReadPixels', 'cls': 'BitmapFile', 'static': True, 'cname': 'BitmapFile_ReadPixels', 'members': {},
+         'calls': {'Read': {1: T('Rd_Read', args=['vec'])}, 'clear': N('vec_u8_clear'), 'resize': T('vec_u8_resize')}, 'views': [(r'\(\*bitmapFile\)\.pixels', 'vec')]},
+        {'file': BR_, 'qual': 'BitmapFile::ReadIndexed', 'cls': 'BitmapFile', 'static': True, 'cname': 'BitmapFile_ReadIndexed', 'members': {}, 'ret_cxx': 'BitmapFile', 'ordinal': 1,
+         'calls': {'ReadBmpHeader': T('BitmapFile_ReadBmpHeader', recv='none', args=['ref']), 'ReadImageHeader': T('BitmapFile_ReadImageHeader', recv='none', args=['ref']),
+                   'ReadPalette': T('BitmapFile_ReadPalette', recv='none', args=['ref', 'ref']), 'ReadPixels': T('BitmapFile_ReadPixels', recv='none', args=['ref', 'ref'])}},
         {'file': 'src/Bitmap/IndexedBmpWriter.cpp', 'qual': 'BitmapFile::WritePixels', 'cls': 'BitmapFile', 'static': True, 'cname': 'BitmapFile_WritePixels', 'members': {},
          'calls': {'Write': {2: T('Wr_Write'), 1: T('Wr_Write', args=['vec'])}}, 'views': [(r'\(\*pixels\)', 'vec'), (r'padding', 'vec')]},
     ],
